@@ -462,6 +462,9 @@ impl ConnH {
             ConnKind::Server(c) => format!("{:#?}", c),
             ConnKind::Gone => return "gone".into(),
         };
+        if std::env::var("H2V_RAWDUMP").is_ok() {
+            eprintln!("{}", text);
+        }
         let v = dbg::parse(&text);
         let mut out = vec![];
         let n = |v: Option<&V>| -> String {
@@ -598,6 +601,25 @@ impl ConnH {
             let loc = se.and_then(|s| s.get("local")).map(|l| l.name().to_string()).unwrap_or_default();
             let rem = se.and_then(|s| s.get("remote")).map(|g| if g.atom() == Some("None") { "0" } else { "1" }).unwrap_or("?");
             out.push(format!("K:{},{},{},{},{}", st, going, ppong, loc, rem));
+            // the peer's GOAWAY the connection has recorded for its own result (`ConnectionInner::error`)
+            let e = match ci.get("error") {
+                Some(V::Atom(a)) if a == "None" => "-".to_string(),
+                Some(v) => v.find("GoAway").and_then(|g| g.get("error_code")).map(|c| c.name().to_string()).unwrap_or_else(|| "?".into()),
+                None => "?".into(),
+            };
+            out.push(format!("E:{}", e));
+        }
+        // octets the peer has queued that the codec has not decoded yet: still in the transport + in FramedRead's buffer
+        {
+            let in_codec = v
+                .find("FramedRead")
+                .and_then(|f| f.get("inner"))
+                .and_then(|f| f.get("buffer"))
+                .and_then(|b| b.atom())
+                .map(|a| unescape(a).len())
+                .unwrap_or(0);
+            let in_io = self.io.0.lock().unwrap().rd.len();
+            out.push(format!("U:{}", in_codec + in_io));
         }
         let sb = v.find("SendBuffer").and_then(|s| s.find("Buffer")).and_then(|b| b.get("slab")).map(|s| s.items().len()).unwrap_or(0);
         out.push(format!("SB:{}", sb));
